@@ -17,13 +17,13 @@ CHECKS = {
         technique="abstract interpretation of MIR (per-bit provenance, intervals, may-depend sets) + grammar-to-helper table extraction; sibling comparison of the byte and word implementations as expression trees (dropped operand / single differing node)",
         text="Decides structurally, for all operands at once: the flag write-set and definedness of ADD/ADC/SUB/SBB/CMP/INC/DEC/NEG (incl. CF "
              "preservation of INC/DEC), the machine frame (no other register/flag/memory byte), CMP writing no destination, the required "
-             "input dependencies of result and of every flag (a missing dependency is a definite defect), byte/word table agreement and "
-             "abort freedom of the helpers and actions. Does NOT decide the numeric result or the flag formulas (value level).",
+             "input dependencies of result and of every flag (a missing dependency is a definite defect), byte/word table agreement, "
+             "that an immediate reaches the helper with every bit of the destination width, and abort freedom of the helpers and actions. Does NOT decide the numeric result or the flag formulas (value level).",
         design="DESIGN.md §6 C01"),
     "C02": dict(
         technique="abstract interpretation of MIR (bit domain exact for logic ops and NOT, count specialisation 0 / 1 / >=1, interval abort analysis); sibling fingerprints of byte/word shift and rotate implementations",
         text="Decides: AND/OR/XOR/TEST clear CF/OF exactly and assign SF/ZF/PF on every path; NOT is an exact complement and touches no flag; TEST "
-             "stores nothing; count==0 changes neither operand nor flags; no count 0..255 aborts a helper; required dependencies; shl==sal; "
+             "stores nothing; count==0 changes neither operand nor flags; no count 0..255 aborts a helper; the `, cl` forms pass exactly CL; required dependencies; shl==sal; "
              "flag frames for count>=1. Does NOT decide the shifted/rotated value or the CF/OF formulas for count>=1.",
         design="DESIGN.md §6 C02"),
 }
@@ -77,7 +77,8 @@ CHECKS["C10"] = dict(
     text="Decided completely over the finite shape set: each of the ~39,000 templates the assembler can emit (all mnemonic/register/override alternatives "
          "expanded, numeric holes at the boundaries of their Rust type; the full product in the thorough tier) is a sentence of the grammar it is destined "
          "for (interpreter, and printer for print lines; data loader for data lines; the driver-appended hlt), numeric holes fit the downstream conversion, "
-         "no identifier/keyword clash, every fallible downstream action has an upstream guarantee, the driver has an arm for every INT.",
+         "no identifier/keyword clash, every fallible downstream action has an upstream guarantee, no downstream error return depends on the machine state (which no upstream "
+         "check could exclude), the driver has an arm for every INT.",
     design="DESIGN.md §6 C10")
 
 CHECKS["C11"] = dict(
@@ -99,14 +100,15 @@ CHECKS["C12"] = dict(
 CHECKS["C13"] = dict(
     technique="path enumeration over the macro_use / macro_def action ASTs: ordering of guard effects (contains < insert < nested parse < remove) on every path, rejecting branches, structural search for a depth bound",
     text="Decides the recursion-guard protocol on every path, rejection of unknown macros, re-raising of expansion errors at the use site, agreement of the "
-         "placeholder syntax between definition and use, and that nothing bounds the input-driven native recursion depth. Does NOT decide that an expansion "
+         "placeholder syntax between definition and use, that every kind of argument is substituted in a spelling the assembler accepts again with the same "
+         "value (numbers included), and that nothing bounds the input-driven native recursion depth. Does NOT decide that an expansion "
          "equals the hand-expanded body (regex whole-word replacement and string substitution are run-time semantics).",
     design="DESIGN.md §6 C13")
 CHECKS["C16"] = dict(
     technique="path enumeration over all assembler action ASTs (push/add_entry pairing with the production's @L lookaround; lock/unlock bracketing) + MIR value tracing of every position handed to get_err_pos in the driver",
     text="Decides: each emitted instruction gets exactly one source-map entry taken at the start of its production (closing brace for the implied ret); "
          "set_source/lock/unlock bracket the nested macro parse on every path; every driver message and preprocess diagnostic passes the recorded position "
-         "unmodified to the line lookup. Does NOT decide the line/column arithmetic inside LexerHelper (value level), e.g. the last line without newline.",
+         "unmodified to the line lookup; the lookup objects hold no interior-mutable state. Does NOT decide the line/column arithmetic inside LexerHelper (value level), e.g. the last line without newline.",
     design="DESIGN.md §6 C16")
 
 CHECKS["C08"] = dict(
@@ -119,7 +121,7 @@ CHECKS["C08"] = dict(
 CHECKS["C14"] = dict(
     technique="path enumeration over assembler action ASTs (rejecting branch per error class dominates every emission), grammar-shape scan of operand classes, CFG dominance of the driver's three gates, Err-never-reaches-Ok rule in preprocess()",
     text="Decides: for each error class (jump to data label, duplicate label/procedure, data operand or OFFSET on code/unknown label, call of a non-procedure, "
-         "out-of-range constant, unsupported int/mnemonic) the rejecting path ends in a diagnostic and emits nothing; no production mixes widths or takes two "
+         "out-of-range constant (conversion made in the operand's own type, failure -> diagnostic), unsupported int/mnemonic) the rejecting path ends in a diagnostic and emits nothing; no production mixes widths or takes two "
          "memory operands; the preprocess, undefined-label and `start` gates dominate loading and execution and have printing exits. Does NOT decide that "
          "diagnostic texts are non-empty for every program.",
     design="DESIGN.md §6 C14")
@@ -147,7 +149,7 @@ CHECKS["C18"] = dict(
     text="Decides: which of the 256 AH values the driver lets through, which the services act on and that both equal the documented sets, with every other value ending "
          "in a printed diagnostic and return; per service the frame (only AL changes; AH=2 copies DL; AH=1/2 write no memory; int_13 takes &VM), the registers each memory "
          "address depends on (DS:DX buffer, ES:BP string), the loop bounds (CX, DL), every bounds/overflow site with all registers and input free, and that the AH=0Ah "
-         "copy loop is control dependent on the capacity byte and the count on capacity and input. Does NOT decide the characters written to stdout.",
+         "copy loop is control dependent on the capacity byte and the count on capacity and input, and that no length or count is narrowed without a guarding test. Does NOT decide the characters written to stdout.",
     design="DESIGN.md §6 C18")
 
 CHECKS["C17"] = dict(
@@ -155,13 +157,13 @@ CHECKS["C17"] = dict(
     text="Decides: every label of `print reg`/`print flags` is followed by the value of the register/flag it names (12 + 9 pairs, resolved by the compiler), in {:04X} / 0-1 / "
          "{:02X} format; the printer, the prompt and every print action can only read the machine; the printed range is exactly a..=b, a..=a+n, 16*DS..=16*DS+n in closed form "
          "for all numerals and DS, with every vm.mem index proved < 2^20 (backwards and overflowing ranges are diverted); the PRINT arm and the prompt use one parser object and "
-         "the executing instruction's text; the assembler rejects a+n >= 2^20; 16 bytes per row. Does NOT decide diagnostic texts.",
+         "the executing instruction's text; the assembler rejects a+n >= 2^20; 16 bytes per row whatever the start address. Does NOT decide diagnostic texts.",
     design="DESIGN.md §6 C17")
 
 CHECKS["C15"] = dict(
     technique="abort-site census by abstract interpretation of MIR (intervals, token-length atoms, ASCII-terminal slicing proofs) over every action of the assembler/data/print grammars and the front-end functions; interprocedural index-unit analysis (character count vs byte offset) over both crates; CFG rules for end-of-input exits of read loops and for depth tests on parser re-entry; call-graph recursion scan",
     text="Decides, for every input text at once: which potential abort sites of the front end are proved safe, which definitely fail (with the operand range as witness) and which "
-         "remain undecided (listed); that no str is sliced or compared with a position counted in characters; that every stdin read loop can leave at end of input; that native "
+         "remain undecided (listed); that no str is sliced or compared with a position counted in characters, nor sliced at a byte offset displaced by a constant; that every stdin read loop can leave at end of input; that native "
          "recursion driven by the input has a depth bound; that nothing else recurses. Does NOT decide proportional time/memory, nor the sites listed as undecided (str slices whose "
          "bounds come from the newline table, unwraps of map lookups, the generated LR driver).",
     design="DESIGN.md §6 C15")
